@@ -83,9 +83,28 @@ def run(tier, seed, replay=None):
                         conns.append({"id": cid, "reqs": [{"op": "OPEN_FILE", "path": "/img.bin"}, r]})
                         cid += 1
                 worlds.append({"name": "cd-%d-%s-%s" % (ss, tag, cname), "aw": False, "nodes": nodes, "conns": conns})
+        # start sectors whose byte offset passes 2^32: far past the end of a small image (nothing may come back), and existing
+        # sectors past 4 GiB in a sparse image (sector size 2352: outside the detection window)
+        GIB4 = 1 << 32
+        for ss, tag in (combos if full else rng.sample(combos, 4)):
+            nodes = [image("img.bin", 2 * MIB + 4096, ss, tag)]
+            wrap = -(-GIB4 // ss)
+            conns = []
+            for j, st in enumerate([wrap, wrap + 1, wrap + 7, 1 << 21, (1 << 22) + 3, (1 << 28) + 1]):
+                conns.append({"id": j + 1, "reqs": [{"op": "OPEN_FILE", "path": "/img.bin"}, {"op": "READ_CD_2048", "start": 1, "count": 1},
+                                                    {"op": "READ_CD_2048", "start": st, "count": rng.choice([1, 2])}]})
+            worlds.append({"name": "cd-wrap-%d-%s" % (ss, tag), "aw": False, "nodes": nodes, "conns": conns, "probe": True})
+        big = GIB4 + 3 * MIB
+        first = -(-(GIB4 - 24) // 2352)          # first sector that starts at or after 4 GiB
+        isl = [(0, 24 + 40 * 2448), (24 + (first - 2) * 2352, 12 * 2352), (big - 8 * 2448, 8 * 2448)]
+        bn = srv.fnode(["big.bin"], big, cid="cd_big4g", mtime=1500000000, islands=isl)
+        conns = [{"id": 1, "reqs": [{"op": "OPEN_FILE", "path": "/big.bin"}] +
+                  [{"op": "READ_CD_2048", "start": st, "count": ct} for st, ct in [(0, 1), (first - 2, 4), (first, 1), (first + 3, 2), (first + 5, 3), (2, 2)]]}]
+        worlds.append({"name": "cd-4g", "aw": False, "nodes": [bn], "conns": conns})
         srv.run_and_validate(ctx, worlds, rep)
         rep.cov["rule"] = ("7 sector sizes x 2 signatures x image-size classes around the 2 MiB / 848 MiB window x (start, count) "
-                           "incl. start != count, count 0, ranges crossing EOF, re-open of another sector size; "
+                           "incl. start != count, count 0, ranges crossing EOF, start sectors whose byte offset passes 2^32 (small image and a "
+                           "sparse image of 4 GiB + 3 MiB), re-open of another sector size; "
                            "distinct_nontrivial = worlds whose traces TLC accepted")
         rep.cov["distinct_nontrivial"] = rep.cov["traces_validated_against_impl"]
         rep.cov["exhaustive"] = full
